@@ -81,6 +81,9 @@ def check(ctx):
     for pi, fp_ in enumerate(fpaths):
         tag = "" if len(fpaths) == 1 else f" [path {pi + 1}: " + ", ".join(("" if c else "not ") + d[:60] for _k, c, d in fp_.decisions) + "]"
         _from_table_path(ctx, it2, fp_, qf, ff, q, qa, pcol, socol, tag)
+    from .common import check_interp_options
+
+    check_interp_options(ctx, "C15-d", ["bluebonnet.flow.flowproperties"], 8)
     ctx.floor("C15", len(ctx.obligs), 10, "multiphase pseudopressure obligations")
 
 
